@@ -107,6 +107,18 @@ class QueueModel:
 class Harness:
     """Applies one operation to the real container and to the models and compares."""
 
+    @staticmethod
+    def check_empty(variant, maxlen):
+        """Before anything is inserted the container is empty: its traversal yields nothing and its count is 0."""
+        from iOpt.method.search_data import SearchData, SearchDataDualQueue
+        sd = (SearchData if variant == "sd" else SearchDataDualQueue)(None, maxlen)
+        try:
+            seq = list(sd)
+        except StopIteration:
+            fail("traversing an empty %s raises StopIteration instead of yielding nothing" % type(sd).__name__)
+        if seq or sd.GetCount() != 0:
+            fail("an empty %s yields %d items / GetCount()=%r" % (type(sd).__name__, len(seq), sd.GetCount()))
+
     def __init__(self, variant, maxlen):
         from iOpt.method.search_data import SearchData, SearchDataDualQueue, SearchDataItem
         from iOpt.trial import Point
@@ -181,6 +193,23 @@ class Harness:
             fail(who + "GetCount()=%r, %d items were inserted" % (self.sd.GetCount(), len(self.items)))
         if self.sd.GetLastItem() is not self.items[-1]:
             fail(who + "GetLastItem() is not the most recently inserted item")
+
+    def traverse_interleaved(self, x):
+        """A traversal during which the covering interval of x is looked up at every item and a second, nested
+        traversal is run: each traversal still yields every item once, in order."""
+        outer = []
+        for it in self.sd:
+            outer.append(it.GetX())
+            self.sd.FindDataItemByOneDimensionalPoint(x)
+            inner = [jt.GetX() for jt in self.sd]
+            if inner != self.xs:
+                fail("a traversal nested in another traversal yields coordinates %r, expected %r" % (inner, self.xs))
+            if len(outer) > len(self.xs) + 3:
+                fail("a traversal with look-ups in between does not terminate")
+        if outer != self.xs:
+            fail("a traversal during which FindDataItemByOneDimensionalPoint(%r) and a nested traversal were run "
+                 "yields coordinates %r, expected %r" % (x, outer, self.xs))
+        self.cls.add("interleaved-traversal")
 
     def find(self, x):
         got = call("FindDataItemByOneDimensionalPoint", self.sd.FindDataItemByOneDimensionalPoint, x)
@@ -323,6 +352,7 @@ class _ContainerMachine(MachineMixin, RuleBasedStateMachine):
         self.step(self._start, maxlen, g0, g1)
 
     def _start(self, maxlen, g0, g1):
+        Harness.check_empty(self.VARIANT, maxlen)
         self.h = Harness(self.VARIANT, maxlen)
         self.h.first(g0, g0, g1, g1)
         self.cls.add("maxlen=%s" % maxlen)
@@ -340,6 +370,12 @@ class _ContainerMachine(MachineMixin, RuleBasedStateMachine):
             x = self.h.xs[pick % len(self.h.xs)]
         self.trace.append(["find", x])
         self.step(self.h.find, x)
+
+    @precondition(lambda self: self.h is not None)
+    @rule(x=st.one_of(coords, st.sampled_from([0.0, 1.0])))
+    def traverse_interleaved(self, x):
+        self.trace.append(["traverse_interleaved", x])
+        self.step(self.h.traverse_interleaved, x)
 
     @precondition(lambda self: self.h is not None)
     @rule(idx=st.integers(0, 1000), which=st.sampled_from(["g", "l"]), v=prios)
